@@ -326,5 +326,33 @@ PROPS['C16'] = {
                   'real app over a real BGPPeering, every rule x method x credential variant x session state.',
 }
 
+PROPS['C17'] = {
+    'module': 'Yabgp.Props.C17',
+    'theorems': ['Yabgp.C17.C17_translate', 'Yabgp.C17.C17_construct_one', 'Yabgp.C17.C17_decode_one',
+                 'Yabgp.C17.render_valOf', 'Yabgp.C17.C17_translate_list', 'Yabgp.C17.C17_construct', 'Yabgp.C17.C17_parse',
+                 'Yabgp.C17.C17_extcomm', 'Yabgp.C17.C17_as4_refused', 'Yabgp.C17.C17_as4_small_as_is_ambiguous',
+                 'Yabgp.C17.C17_community', 'Yabgp.C17.C17_wellknown_names', 'Yabgp.C17.C17_wellknown_reverse_table',
+                 'Yabgp.C17.C17_large', 'Yabgp.C17.C17_ext_codes', 'Yabgp.C17.C17_names',
+                 'Yabgp.Text.parseDec_decStr', 'Yabgp.Text.parseIpv4_ipv4Str', 'Yabgp.Text.parseComm_commStr',
+                 'Yabgp.Text.parseLarge_largeStr', 'Yabgp.ExtComm.packF_exact', 'Yabgp.ExtComm.unpackF_exact'],
+    'genagree': ['Yabgp.GenAgree.well_known_int2str', 'Yabgp.GenAgree.well_known_str2int', 'Yabgp.GenAgree.attr_ids',
+                 'Yabgp.GenAgree.attr_flags', 'Yabgp.GenAgree.update_errors'],
+    'suites': ['commtext'],
+    'cannot': 'ASCII input only in the string model (Python strips / recognises further Unicode whitespace and digits); IPv4 text is '
+              'netaddr 1.x (inet_pton) behaviour; traffic-rate / dmzlink-bw are proved for the naturals binary32 represents exactly '
+              '(the decoder prints int(rate)); kinds with a 4-octet AS are proved for AS >= 65536 towards a peer that advertised the '
+              'capability (the views refuse them otherwise; RFC 5668 s.3 for the small AS numbers); REST worker-thread races; the '
+              'three BGP_EXT_COM_* dictionaries are compared at run time, not through Gen/*',
+    'level_text': 'Lean 4 theorems over hand-written executable models of ExtCommunity.parse/construct and of the REST '
+                  '"extended community recombine" translation (List Char models of split/strip/lower/int/netaddr, binary32 on bit '
+                  'patterns): for every one of the 18 renderable kinds and every in-range field tuple the text form is translated to '
+                  'the right item for any peer state, the item is encoded to exactly the octets of an independent RFC reference '
+                  'encoder, and those octets decode to exactly that text; lifted by induction to arbitrary lists / the whole '
+                  'attribute; all 2^32 community values incl. every name of the table generated from constants.py; large communities '
+                  'up to 2^32-1. Tied to /repo by differential correspondence of every model function (codec level, CPython primitives, '
+                  'both REST endpoints on the real Flask app over an Established session for three kinds of peer); the property '
+                  'itself is evaluated on the real code for every generated value.',
+}
+
 # properties not claimed yet, with the reason that goes into MANIFEST.not_applicable
 NOT_YET = {}
